@@ -18,7 +18,8 @@ RULE = ('cases = real join executions on generated table pairs: W1 one tight tab
         'all sets <= S at every separating threshold; W3 seeded random hostile tables over all '
         'tokenizers/ops/flags/n_jobs; W4 thresholds that are the exact double-precision score of pairs '
         'of sets up to 64 tokens (rewrite-sensitive points first); HUGE records of 300 to 140 000 '
-        'tokens; F contract-steered witnesses for n<=1000. 8 % of the calls receive tables that were '
+        'tokens (also with every common token beyond position 2**16); LARGE planted tables of 1100 to 9000 '
+        'rows; AMBIG token sets that coincide once joined; F contract-steered witnesses for n<=1000. 8 % of the calls receive tables that were '
         'used in an earlier call (in place / derived copy). A case is '
         'non-trivial if the model finds at least one required pair in it; distinct = distinct '
         '(workload, measure, threshold, op, table digest).')
